@@ -457,17 +457,17 @@ ENTRIES = {
     'insertMany': E('$c.insertMany($n, $o)', lambda L, a: _insert(
         L, _nonneg_doc(a['n']), a['o']), ['n', 'o']),
     'replace': E('$c.replace($n, $x)', lambda L, a: _replace_many(
-        L, _nonneg_doc(a['n']), [a['x']]), ['n', 'x']),
+        L, a['n'], [a['x']]), ['n', 'x']),
     'replace-count': E('$c.replace($n, $x, $m)', lambda L, a: _replace_many(
-        L, _nonneg_doc(a['n']), [a['x']], a['m']), ['n', 'x', 'm']),
+        L, a['n'], [a['x']], a['m']), ['n', 'x', 'm']),
     'replaceMany': E('$c.replaceMany($n, $o, $m)',
-                     lambda L, a: _replace_many(L, _nonneg_doc(a['n']),
+                     lambda L, a: _replace_many(L, a['n'],
                                                 a['o'], a['m']),
                      ['n', 'o', 'm']),
     'delete': E('$c.delete($n)', lambda L, a: _delete(
-        L, _nonneg_doc(a['n'])), ['n']),
+        L, a['n']), ['n']),
     'delete-count': E('$c.delete($n, $m)', lambda L, a: _delete(
-        L, _nonneg_doc(a['n']), a['m']), ['n', 'm']),
+        L, a['n'], a['m']), ['n', 'm']),
     'times': E('$c * $n', lambda L, a: L * a['n'], ['n'],
                kinds=('tuple', 'list')),
     'defaultIfEmpty': E('$c.defaultIfEmpty($o)',
